@@ -92,6 +92,7 @@ OPS = {
                                                "    if atom.bonding_capacity < 0:\n        _PROCESS_ATOM_CACHE[symbol] = (bond_info, None)\n        return None")], ["T8"]),
     ],
     "C03": [
+        op("H0-read-as-one-hydrogen", "fire", [(S, "        h_count = 1 if (s == \"\") else int(s)", "        h_count = int(s or 1) or 1")], ["R11"]),
         op("roots-as-set", "fire", [(M, "        self._roots = list()", "        self._roots = set()"), (M, "            self._roots.append(atom.index)", "            self._roots.add(atom.index)")], ["R10"]),
         op("ring-arity-capped", "fire", [(E, "                    _ring_bonds_to_selfies(rev_bond, bond),\n                    len(Q_as_symbols)\n", "                    _ring_bonds_to_selfies(rev_bond, bond),\n                    min(len(Q_as_symbols), 2)\n")], ["R4"]),
         op("encoder-own-atom-printer", "fire", [(E, '    return "[{}{}]".format(bond_char, atom_to_smiles(atom, brackets=False))',
@@ -134,6 +135,8 @@ OPS = {
         op("closure-marks-swapped-ends", "fire", [(S, "        a=latom.index, a_stereo=lstereo, a_pos=lpos,\n        b=ratom.index, b_stereo=rstereo,", "        a=latom.index, a_stereo=lstereo, a_pos=lpos,\n        b=ratom.index, b_stereo=lstereo,")], ["S6"]),
     ],
     "C05": [
+        op("double-bonds-written-inside-the-reset-loop", "fire", [(M, "            self._bond_counts[node] = int(self._bond_counts[node])\n\n        for matched_labels in enumerate(matching):\n            matched_nodes = tuple(label_to_node[i] for i in matched_labels)\n            self.update_bond_order(*matched_nodes, new_order=2)\n",
+                                                                       "            self._bond_counts[node] = int(self._bond_counts[node])\n            if node in node_to_label and matching[node_to_label[node]] < node_to_label[node]:\n                self.update_bond_order(label_to_node[matching[node_to_label[node]]], node, new_order=2)\n")], ["K9"]),
         op("half-bond-lost-in-electron-count", "fire", [(M, "                               + int(self._bond_counts[node]) \n                               + int(2 * (self._bond_counts[node] % 1)))", "                               + round(self._bond_counts[node]))")], ["K6"]),
         op("vertices-from-kept-bonds", "fire", [(M, "        label_to_node = list(sorted(kept_nodes))", "        label_to_node = sorted({n for n in kept_nodes for a in ds[n] if a in kept_nodes})"),
                                                  (M, "        pruned_ds = [list() for _ in range(len(kept_nodes))]\n        for node in kept_nodes:", "        pruned_ds = [list() for _ in range(len(label_to_node))]\n        for node in label_to_node:")], ["K8"]),
@@ -209,6 +212,7 @@ OPS = {
         op("remove-chain-start-check", "fire", [(S, "        elif chain_start:\n            err_msg = \"SMILES chain begins with non-atom\"\n            raise SMILESParserError(smiles, err_msg, tok.start_idx)\n\n", "")], ["EST", "X-none-deref"]),
     ],
     "C10": [
+        op("symbol-isotope-0-read-as-absent", "fire", [(G, "    isotope = None if (isotope == \"\") else int(isotope)", "    isotope = (int(isotope) or None) if isotope else None")], ["L6", "L5"]),
         op("lowercase-h-count", "fire", [(S, '            builder.append("H")\n            builder.append(str(atom.h_count))', '            builder.append("h")\n            builder.append(str(atom.h_count))')], ["L3"]),
         op("decoder-drops-isotope-zero", "fire", [(G, '    isotope = None if (isotope == "") else int(isotope)\n    if element not in ELEMENTS:\n        return None\n    chirality = None', '    isotope = None if (isotope == "") else int(isotope)\n    isotope = isotope or None\n    if element not in ELEMENTS:\n        return None\n    chirality = None')], ["L5"]),
         op("strict-check-ignores-explicit-hydrogens", "fire", [(E, '        bond_cap = atom.bonding_capacity\n', '        bond_cap = get_bonding_capacity(atom.element, atom.charge)\n'), (E, 'from selfies.exceptions import EncoderError, SMILESParserError\n', 'from selfies.bond_constraints import get_bonding_capacity\nfrom selfies.exceptions import EncoderError, SMILESParserError\n')], ["L4"]),
@@ -219,6 +223,8 @@ OPS = {
         op("isotope-not-standardised", "fire", [(S, "    isotope = None if (isotope == \"\") else int(isotope)\n    is_aromatic", "    isotope = None if (isotope == \"\") else isotope\n    is_aromatic")], ["L2"]),
     ],
     "C11": [
+        op("index-table-grows-on-lookup", "fire", [(K, "INDEX_CODE = {c: i for i, c in enumerate(INDEX_ALPHABET)}", "import collections\nINDEX_CODE = collections.defaultdict(int, {c: i for i, c in enumerate(INDEX_ALPHABET)})"),
+                                                      (G, "INDEX_CODE.get(c, 0)", "INDEX_CODE[c]")], ["P2", "P1"]),
         op("recursion-limit-raised-in-call", "fire", [(E, "    if not mol.kekulize():", "    import sys\n    sys.setrecursionlimit(sys.getrecursionlimit() + 1)\n    if not mol.kekulize():")], ["P10"]),
         op("cache-atom-instance", "fire", [(G, "        _PROCESS_ATOM_CACHE[symbol] = output\n", "        _PROCESS_ATOM_CACHE[symbol] = (output[0], output[1]())\n"), (G, "    atom = atom_fac()\n", "    atom = atom_fac() if callable(atom_fac) else atom_fac\n")], ["P2", "P3"]),
         op("drop-memo-clear", "fire", [(B, "    get_bonding_capacity.cache_clear()", "    pass")], ["P4"]),
@@ -259,6 +265,8 @@ OPS = {
         op("fragments-joined-with-space", "fire", [(E, '    result = ".".join(fragments), attribution_maps', '    result = " ".join(fragments), attribution_maps')], ["K1"]),
     ],
     "C15": [
+        op("row-count-from-first-vector", "fire", [(U, "    selfies_list = []\n\n    for flat_one_hot in one_hot_batch:", "    selfies_list = []\n    L = len(one_hot_batch[0]) // len(vocab_itos) if one_hot_batch else 0\n\n    for flat_one_hot in one_hot_batch:"),
+                                                      (U, "        L = len(flat_one_hot) // M\n", "")], ["U3"]),
         op("empty-vectors-skipped", "fire", [(U, "    for flat_one_hot in one_hot_batch:\n", "    for flat_one_hot in one_hot_batch:\n        if not flat_one_hot:\n            continue\n")], ["U4"]),
         op("recovered-string-cut-at-nop", "fire", [(U, "    selfies = \"\".join(char_list)\n\n    return selfies", "    selfies = \"\".join(char_list)\n\n    return selfies.partition(\"[nop]\")[0]")], ["U7"]),
         op("batch-ignores-pad", "fire", [(U, "        one_hot = selfies_to_encoding(selfies, vocab_stoi, pad_to_len,", "        one_hot = selfies_to_encoding(selfies, vocab_stoi, -1,")], ["U4"]),
@@ -277,6 +285,11 @@ OPS = {
         op("no-reverse", "fire", [(G, "    return symbols[::-1]", "    return symbols")], ["I5"]),
     ],
     "C17": [
+        op("encoder-recursive-call-drops-own-offset", "fire", [(E, "                    mol, bond, bond.dst, attribution_maps,\n                    attribution_index + len(derived))", "                    mol, bond, bond.dst, attribution_maps, len(derived))")], ["TE6"]),
+        op("encoder-shift-start-hoisted", "fire", [(E, "        out_bonds = mol.get_out_dirbonds(curr)\n        for i, bond in enumerate(out_bonds):", "        start = len(attribution_maps)\n        out_bonds = mol.get_out_dirbonds(curr)\n        for i, bond in enumerate(out_bonds):"),
+                                                      (E, "                start = len(attribution_maps)\n                branch = _fragment_to_selfies(", "                branch = _fragment_to_selfies(")], ["TE6"]),
+        op("encoder-shift-end-measured-before-call", "fire", [(E, "                start = len(attribution_maps)\n                branch = _fragment_to_selfies(", "                start = len(attribution_maps)\n                end = len(attribution_maps)\n                branch = _fragment_to_selfies("),
+                                                                 (E, "                end = len(attribution_maps)\n\n                derived.append(branch_symbol)", "\n                derived.append(branch_symbol)")], ["TE6"]),
         op("encoder-offset-from-last-map", "fire", [(E, "        attribution_index += len(derived)", "        attribution_index = attribution_maps[-1].index + 1")], ["TE5"]),
         op("memoised-parse", "fire", [(S, "def smiles_to_mol(smiles: str, attributable: bool) -> MolecularGraph:", "import functools\n\n\n@functools.lru_cache(maxsize=256)\ndef smiles_to_mol(smiles: str, attributable: bool) -> MolecularGraph:")], ["NI"]),
         op("dash-not-counted-as-bond-token", "fire", [(S, "    is_root = (prev_atom is None)\n    if bond_char:\n        i += 1", "    is_root = (prev_atom is None)\n    if bond_char and bond_char != \"-\":\n        i += 1")], ["TE4"]),
